@@ -23,13 +23,16 @@ RULE = ("seeded files of 1-14 feature lines written in ONE dialect drawn from {G
         "coordinates x valueless flags, line count below/at/above checklines in {0,1,2,10}; file and :memory: databases; keep_order / "
         "sort_attribute_values; vantage points {returned handle, second handle, fresh process after exit, after crash-exit, re-import "
         "of the printed features}. distinct = journal hash; non-trivial = >= 2 lines compared byte-for-byte from >= 2 vantage points")
-ASSUMPTIONS = ["'one consistent dialect' is generated as: >= 2 attributes per line, one key order for the whole file with the first line "
+ASSUMPTIONS = ["with sort_attribute_values=True the printed line is not compared with the input (it is sorted by design); stored values, "
+               "their order, and idempotence of printing still are",
+               "'one consistent dialect' is generated as: >= 2 attributes per line, one key order for the whole file with the first line "
                "carrying every key when keep_order is judged, every line using repeated keys in repeated-keys files, upper-case escapes "
                "of exactly the characters gffutils re-encodes",
                "GTF imports run with inference disabled (derived features are C03's business)"]
 
 GFF3_VALS = ["a", "b c", "x;y", "p=q", "1,2", "100%", "t\tu", "é", "a&b", "v1", "Z"]
 PLAIN_VALS = ["a", "b c", "é", "x_1", "v1", "Z", "7"]
+PLAIN_ESC_VALS = PLAIN_VALS + ["50%25", "a%3Bb", "x%2Cy", "100%"]  # GTF/GFF2 have no escaping: kept verbatim
 
 
 def budget(tier):
@@ -49,7 +52,7 @@ def gen(rng, tier):
         vals = GFF3_VALS if rng.random() < 0.6 else PLAIN_VALS
     else:
         keys = ["gene_id", "transcript_id", "exon_number", "tag", "note"]
-        vals = PLAIN_VALS
+        vals = PLAIN_ESC_VALS if (fam == "gtf" and rng.random() < 0.4) else PLAIN_VALS
     n = rng.choice([1, 2, 3, 3, 5, 8, 11, 14]) if rng.random() > 0.03 else rng.choice([120, 400, 1050])
     keep_order = rng.random() < 0.7
     sortv = rng.random() < 0.2
@@ -86,9 +89,6 @@ def gen(rng, tier):
             if not any(len(a[1]) > 1 for a in tgt):
                 a = tgt[-1] if tgt else attrs[-1]
                 a[1] = [vals[0], vals[5 % len(vals)]] if vals[0] != vals[5 % len(vals)] else [vals[0], vals[1]]
-        if sortv:
-            for a in attrs:
-                a[1] = sorted(a[1])
         if fam == "gff3" and rng.random() < 0.15 and len(attrs) >= 2 and not d["repeat"]:
             attrs.insert(rng.randint(1, len(attrs)), ["flag", []])
             if keep_order and i > 0:
@@ -105,7 +105,15 @@ def gen(rng, tier):
         feats[0]["attrs"] = [a for a in feats[0]["attrs"] if a[0] != "flag"]
         if any(a[0] == "flag" for f in feats for a in f["attrs"]):
             feats[0]["attrs"].append(["flag", []])
-    return {"dialect": d, "feats": feats, "checklines": rng.choice([0, 1, 2, 10]), "keep_order": keep_order, "sort_values": sortv,
+    checklines = rng.choice([0, 1, 2, 10])
+    if rng.random() < 0.4 and len(feats) > checklines + 1:
+        late = rng.choice([["zeta", "alpha"], ["Zed", "beta", "Alpha"], ["late2", "late1"]])
+        for f in feats[checklines + 1:]:
+            if rng.random() < 0.6:
+                for lk in late:
+                    if rng.random() < 0.8:
+                        f["attrs"].append([lk, [rng.choice(PLAIN_VALS)]])
+    return {"dialect": d, "feats": feats, "checklines": checklines, "keep_order": keep_order, "sort_values": sortv,
             "dbfn": rng.choice(["a.db", "a.db", "a.db", ":memory:"]), "form": rng.choice(["path", "path", "string", "gz"]),
             "end": rng.choice(["exit", "crash", "crash"]), "directives": rng.choice([[], [], ["gff-version 3"]])}
 
@@ -128,7 +136,11 @@ def check_dump(case, lines, d, V, where, check_lines=True):
         if list(g["extra"]) != m["extra"]:
             V.append(viol("C01.columns", "%s: line %d extra columns %r != %r" % (where, i, g["extra"], m["extra"]), kind="extra"))
             return False
-        if check_lines and g["line"] != lines[i]:
+        if check_lines and g.get("line2", g["line"]) != g["line"]:
+            V.append(viol("C01.print", "%s: line %d prints differently the second time: %r then %r" % (where, i, g["line"], g["line2"]),
+                          kind="print_not_idempotent"))
+            return False
+        if check_lines and not case["sort_values"] and g["line"] != lines[i]:
             V.append(viol("C01.print", "%s: line %d printed as %r, input was %r" % (where, i, g["line"], lines[i]), kind="printed_line",
                           fam=case["dialect"]["fam"], keep_order=case["keep_order"]))
             return False
@@ -142,8 +154,9 @@ def run(case):
     journal = []
     d_ = case["dialect"]
     feats = case["feats"]
-    lines = [G.render_line(f, d_) for f in feats]
-    text = "".join("##%s\n" % x for x in case["directives"]) + "\n".join(lines) + "\n"
+    in_lines = [G.render_line(f, d_) for f in feats]
+    text = "".join("##%s\n" % x for x in case["directives"]) + "\n".join(in_lines) + "\n"
+    lines = in_lines
     okw = {"keep_order": case["keep_order"], "sort_attribute_values": case["sort_values"]}
     vantage = 0
     with World("c01_") as w:
@@ -188,8 +201,11 @@ def run(case):
                     else:
                         d3 = call(node, {"op": "dump", "h": "h3", "relations": False})
                         if d3["ok"]:
-                            a = [(f["id"], f["cols"], f["attrs"], f["extra"], f["line"]) for f in d["dump"]["features"]]
-                            b = [(f["id"], f["cols"], f["attrs"], f["extra"], f["line"]) for f in d3["dump"]["features"]]
+                            def norm(f):
+                                at = [[k, sorted(v)] for k, v in f["attrs"]] if case["sort_values"] else f["attrs"]
+                                return (f["id"], f["cols"], at, f["extra"], f["line"])
+                            a = [norm(f) for f in d["dump"]["features"]]
+                            b = [norm(f) for f in d3["dump"]["features"]]
                             if a != b or d["dump"]["directives"] != d3["dump"]["directives"]:
                                 V.append(viol("C01.reimport", "re-importing the printed features gives a different database", kind="reimport_differs",
                                               fam=d_["fam"]))
